@@ -79,6 +79,7 @@ pub struct Report {
     pub hooks: BTreeMap<String, u64>,
     /// hashes of non-trivial cases (deduplicated when the report is finalised)
     pub distinct: Vec<u64>,
+    distinct_compact_at: usize,
     pub samples: Vec<Value>,
     pub violations: BTreeMap<String, Violation>,
     pub inconclusive: Vec<String>,
@@ -141,9 +142,11 @@ impl Report {
     pub fn distinct(&mut self, key: u64, nontrivial: bool) {
         if nontrivial {
             self.distinct.push(key);
-            if self.distinct.len() > (1 << 20) {
+            // compact now and then; the threshold doubles with the number of truly distinct keys
+            if self.distinct.len() > self.distinct_compact_at.max(1 << 20) {
                 self.distinct.sort_unstable();
                 self.distinct.dedup();
+                self.distinct_compact_at = 2 * self.distinct.len();
             }
         }
     }
